@@ -53,7 +53,7 @@ theorem slot_modW (u : Nat) (f : Watcher → Watcher) : Pres (SlotView P) (modW 
 
 theorem slotLeaf : Leaf (SlotView P) where
   emit := fun o => by slot_same
-  emitRep := fun c i a b d => by slot_same
+  emitEv := fun w t p x => by unfold emitEv; slot_same
   setK := fun k => by unfold setK; slot_same
   setStatus := fun u st => slot_modW _ _
   trySetNp := fun u n => by
@@ -99,6 +99,10 @@ end
 end Circus.Core
 
 namespace Circus.Core
+
+theorem slot_emitRep {P : Option String → Nat → Prop} (c : String) (i : JVal) (a b d : String) :
+    Pres (SlotView P) (emitRep c i a b d) := by
+  unfold emitRep; slot_same
 
 theorem relCbs_none {cbs : List TopCb} (h : TopCb.release ∉ cbs) : relCbs cbs = 0 := by
   unfold relCbs
@@ -339,7 +343,7 @@ theorem slotInv_settleStep (he : ∀ n t, Pres SlotInv (exec n t)) (hq : Pres Sl
       | reply a b c d e f =>
         simp only [Ready.isRelease, Bool.false_eq_true, if_false, Nat.add_zero] at h1 h2
         have hp : Pres SlotInv (runTopCb v (TopCb.reply a b c d e f)) := by
-          have hs := sendReply_pres (I := SlotInv) slotLeaf
+          have hs := sendReply_pres (I := SlotInv) slotLeaf slot_emitRep
           simp only [runTopCb]
           split <;> (split <;> first | exact hs _ _ _ _ _ _ | exact Pres.pure _)
         exact hp _ ⟨by simpa [relCount, relReady] using h1, by simpa [relCount, relReady] using h2⟩
@@ -359,6 +363,7 @@ namespace Circus.Core
 
 theorem slotSpec : Spec SlotInv where
   toLeaf := slotLeaf
+  emitRep := slot_emitRep
   deliverTop := slotInv_deliverTop
   newTopNR := fun cbs h => slot_newTopNR cbs h
   addDone := fun tid cb h => slot_addDone tid cb h
